@@ -36,7 +36,7 @@ class Ctx:
     def after_view(self):
         if self.obs.after is None:
             return None
-        if self.obs.after == self.before:
+        if self.obs.after == self.before or self.obs.after == self.obs.before:
             return self.view
         try:
             return tree.RoView(self.obs.after)
@@ -97,7 +97,13 @@ class Ctx:
 
     @property
     def merge_error(self):
-        return self.obs.exc in target.merge_error_names(self.ns)
+        return bool(self.obs.merge_error)
+
+    @property
+    def changed(self):
+        """The library's serialisation after the step differs from its serialisation before it."""
+        b = self.obs.before if self.obs.before is not None else self.before
+        return self.obs.after != b
 
 
 class Result:
@@ -201,9 +207,9 @@ def process_states(texts):
             res.transitions += 1
             res.by_kind[case['kind']] += 1
             oc = obs.exc or ('warn:' + '+'.join(sorted(set(obs.warns))) if obs.warns else
-                             ('changed' if obs.after != text else 'same'))
+                             ('changed' if ctx.changed else 'same'))
             res.by_outcome[oc] += 1
-            if obs.after != text or obs.exc or obs.warns:
+            if ctx.changed or obs.exc or obs.warns:
                 res.nontrivial += 1
             bad = False
             for mon in monitors:
@@ -214,7 +220,7 @@ def process_states(texts):
                 res.samples.append({'state_story_ids': view.story_ids, 'case': _jsonable(case),
                                     'message': msg, 'outcome': oc,
                                     'after_story_ids': ctx.after_view.story_ids if ctx.after_view else None})
-            if not bad and obs.exc is None and obs.after is not None and obs.after != text:
+            if not bad and obs.exc is None and obs.after is not None and ctx.changed and obs.after != text:
                 if obs.after not in res.successors and h.accept(ctx):
                     res.successors[obs.after] = (text, msg)
     return res
